@@ -69,6 +69,17 @@ def scen_db(env, cfg):
                 if not bad:
                     inv = U.idb(r) if f == 'db' else U.idbm(r)
                     env.check(f'i{f}({f}(array)) == array element-wise', env.eqs(inv, xs))
+            if form == 'ndarray':
+                # the caller keeps using its array: the conversions must not scale it in place, and the identities hold on reuse
+                snap = env.snap(arg)
+                try:
+                    a, b = U.dbm(arg), U.db(arg)
+                    again = U.dbm(arg)
+                    env.check('dbm(x) == db(x) + 30 on the same ndarray, and a second dbm(x) gives the same values',
+                              env.And(env.eqs(a, [v + 30 for v in env.items(b)], scale=300), env.eqs(again, env.items(a), scale=300)))
+                except ValueError:
+                    pass
+                env.check('db / dbm leave their ndarray argument untouched', env.untouched(arg, snap))
     elif kind == 'types':
         for bad in ('3', None, {'a': 1}):
             env.check(f'db({bad!r}) raises TypeError', _raises(lambda: U.db(bad), TypeError))
